@@ -299,3 +299,72 @@ fn c01_validate_proof_entry() {
     kani::assert(model::storage_writes() == w0 && model::events_len() == 0, "VERIF:C01:standalone check changes nothing");
     kani::cover!(res.is_ok(), "VERIF:reach:standalone accepted");
 }
+
+// HARNESS props=C03,C06,C08,C09 tier=quick profile=gw_init shape="AxelarGateway::__constructor with one initial set: roles and configuration land where they belong"
+#[kani::proof]
+#[kani::unwind(114)]
+fn c03_gateway_constructor() {
+    let env = Env::default();
+    let owner = any::address(4);
+    let operator = any::address(4);
+    let domain = any::b32(2);
+    let d: u64 = kani::any();
+    let r: u64 = kani::any();
+    let t: u64 = kani::any();
+    model::set_ledger(t, kani::any());
+    let set = any_set(&env, 1);
+    let h = ideal_hash(&set.clone().to_xdr(&env).0);
+    let sets: Vec<WeightedSigners> = Vec::from_array(&env, [set.clone()]);
+    let res = model::with_contract(&gw(), || AxelarGateway::__constructor(env.clone(), owner.clone(), operator.clone(), domain.clone(), d, r, sets.clone()));
+    if res.is_ok() {
+        use axelar_soroban_std::interfaces::{OperatableInterface as _, OwnableInterface as _};
+        let (o, p, e, eh, he) = model::with_contract(&gw(), || {
+            (
+                AxelarGateway::owner(&env),
+                AxelarGateway::operator(&env),
+                <AxelarGateway as AxelarGatewayInterface>::epoch(&env),
+                <AxelarGateway as AxelarGatewayInterface>::epoch_by_signers_hash(&env, BytesN(h)),
+                <AxelarGateway as AxelarGatewayInterface>::signers_hash_by_epoch(&env, 1),
+            )
+        });
+        kani::assert(o == owner && p == operator, "VERIF:C06:construction installs exactly the given owner and operator");
+        kani::assert(e == 1 && eh == Ok(1) && he == Ok(BytesN(h)), "VERIF:C03:after construction the epoch and both lookup queries report the initial set at epoch 1");
+        let k = |d: &DataKey| -> Val { d.into_val(&Env) };
+        kani::assert(model::storage_get(&gw(), 0, &k(&DataKey::PreviousSignerRetention)) == Some(model::val_of(&r)), "VERIF:C08:the retention window is exactly the configured one");
+        kani::assert(model::storage_get(&gw(), 0, &k(&DataKey::MinimumRotationDelay)) == Some(model::val_of(&d))
+            && model::storage_get(&gw(), 0, &k(&DataKey::LastRotationTimestamp)) == Some(model::val_of(&t)), "VERIF:C09:the minimum delay is exactly the configured one and the clock starts at deployment");
+        kani::assert(model::storage_get(&gw(), 0, &k(&DataKey::DomainSeparator)) == Some(model::val_of(&domain)), "VERIF:C03:the domain separator is stored as given");
+        kani::cover!(owner != operator, "VERIF:reach:gateway constructed");
+    }
+}
+
+// HARNESS props=C03 tier=quick profile=gw_rot1 shape="lookup queries on an arbitrary seeded state"
+#[kani::proof]
+#[kani::unwind(114)]
+fn c03_lookup_queries() {
+    let env = Env::default();
+    let e: u64 = kani::any();
+    let hq = any::b32(2);
+    let kq: u64 = kani::any();
+    let h_present: bool = kani::any();
+    let h_epoch: u64 = kani::any();
+    let k_present: bool = kani::any();
+    let k_hash = any::b32(2);
+    let key = |d: &DataKey| -> Val { d.into_val(&Env) };
+    model::storage_set(&gw(), 0, &key(&DataKey::Epoch), &model::val_of(&e));
+    model::storage_set_if(h_present, &gw(), 1, &key(&DataKey::EpochBySignersHash(hq.clone())), &model::val_of(&h_epoch));
+    model::storage_set_if(k_present, &gw(), 1, &key(&DataKey::SignersHashByEpoch(kq)), &model::val_of(&k_hash));
+    let w0 = model::storage_writes();
+    let (qe, qh, qk) = model::with_contract(&gw(), || {
+        (
+            <AxelarGateway as AxelarGatewayInterface>::epoch(&env),
+            <AxelarGateway as AxelarGatewayInterface>::epoch_by_signers_hash(&env, hq.clone()),
+            <AxelarGateway as AxelarGatewayInterface>::signers_hash_by_epoch(&env, kq),
+        )
+    });
+    kani::assert(qe == e, "VERIF:C03:epoch() reports the stored epoch");
+    kani::assert(qh == if h_present { Ok(h_epoch) } else { Err(ContractError::InvalidSignersHash) }, "VERIF:C03:epoch_by_signers_hash reports exactly the stored mapping");
+    kani::assert(qk == if k_present { Ok(k_hash.clone()) } else { Err(ContractError::InvalidEpoch) }, "VERIF:C03:signers_hash_by_epoch reports exactly the stored mapping");
+    kani::assert(model::storage_writes() == w0, "VERIF:C03:lookups change nothing");
+    kani::cover!(h_present && k_present, "VERIF:reach:both lookups hit");
+}
